@@ -18,7 +18,7 @@ def default_then(chk, cfg, trait, method, first, rule):
         chk.cannot(rule, what, "trait default not found uniquely")
         return
     b = bs[0]
-    paths, _ = an.analyse(cfg, b, policy=an.NoInline())
+    paths, _ = an.analyse(cfg, b, policy=an.SeqPolicy())   # a private helper shared by the to_* defaults is inlined
     r = [p for p in paths if p.end == "return"]
     ok = False
     got = ""
